@@ -123,4 +123,51 @@ example : ∀ p ∈ demoInsts, p.1 ∈ blockTable := by
 
 example : countAll demoInsts = 9 := by decide
 
+/-! ### dictionaries are addressed by name: the order in which the caller writes the keys does not matter -/
+
+theorem get?_perm {d d' : KDict ℝ} (h : d.Perm d') (hn : (d.map Prod.fst).Nodup) (k : Key) :
+    KDict.get? d k = KDict.get? d' k := by
+  induction h with
+  | nil => rfl
+  | cons x _ ih =>
+    obtain ⟨k', v⟩ := x
+    simp only [List.map_cons, List.nodup_cons] at hn
+    simp only [KDict.get?]
+    split
+    · rfl
+    · exact ih hn.2
+  | swap x y l =>
+    obtain ⟨k1, v1⟩ := x
+    obtain ⟨k2, v2⟩ := y
+    simp only [List.map_cons, List.nodup_cons, List.mem_cons, not_or] at hn
+    simp only [KDict.get?]
+    by_cases h1 : k1 = k <;> by_cases h2 : k2 = k
+    · exact absurd (h2.trans h1.symm) hn.1.1
+    · simp [h1, h2]
+    · simp [h1, h2]
+    · simp [h1, h2]
+  | trans h1 _ ih1 ih2 =>
+    have hn' := (h1.map Prod.fst).nodup_iff.mp hn
+    rw [ih1 hn, ih2 hn']
+
+theorem execK_perm (p : List CK) {d d' : KDict ℝ} (h : d.Perm d') (hn : (d.map Prod.fst).Nodup) :
+    execK p d = execK p d' := by
+  induction p with
+  | nil => rfl
+  | cons c t ih =>
+    obtain ⟨k, tr⟩ := c
+    simp only [execK, get?_perm h hn k, ih]
+
+/-- **`kwargs2args` (hence the bound vectors built through it) does not depend on the order in which the caller wrote the
+    keys of the dictionaries**: permuting the entries of every dictionary (keys distinct, as in a Python dict) leaves the
+    vector unchanged — for every configuration and every block -/
+theorem kwargs2args_key_order : ∀ (insts : List (Inst ℝ)) (ds ds' : List (KDict ℝ)),
+    List.Forall₂ (fun a b => a.Perm b ∧ (a.map Prod.fst).Nodup) ds ds' → k2aAll insts ds = k2aAll insts ds'
+  | [], _, _, h => by cases h <;> rfl
+  | (b, c) :: t, ds, ds', h => by
+    cases h with
+    | nil => rfl
+    | cons hab hrest =>
+      simp only [k2aAll, execK_perm _ hab.1 hab.2, kwargs2args_key_order t _ _ hrest]
+
 end HierArc.C01
